@@ -392,6 +392,20 @@ pub fn candidates(function: &str, seed: u64) -> Vec<Value> {
             } } } }
         }
     }
+    // long lists for and_lst / or_lst: exactly one essential element at position k of a list of n (the others are the
+    // neutral constant), n = 1..24, every k -- a dropped, duplicated or misplaced element changes the result
+    if !smooth_only {
+        for n in 1..=24usize {
+            for k in 0..n {
+                for (name, neutral) in [("andlst", 3), ("orlst", 4)] {
+                    let l: Vec<Value> = (0..n).map(|i| if i == k { json!(0) } else { json!(neutral) }).collect();
+                    let cache = if (n + k) % 2 == 0 && !lru_only { "all" } else { "lru" };
+                    out.push(json!({"case": "bdd_prog", "order": ORDERS[(n + k) % 6], "cache": cache,
+                        "ops": [["var", 0, true], ["var", 1, true], ["neg", 1], ["or", 1, 2], ["and", 1, 2], [name, l]], "shape": shape, "only": only}));
+                }
+            }
+        }
+    }
     // random programs over three and (every third) four variables
     let mut rng = Rng(seed.wrapping_add(12345));
     for t in 0..3000 {
